@@ -309,3 +309,6 @@ func ReasonText(d *packet.Disconnect) string {
 	}
 	return fmt.Sprintf("%+v", d.Reason)
 }
+
+// IsEncrypted reports whether the client enabled encryption.
+func (c *Client) IsEncrypted() bool { c.mu.Lock(); defer c.mu.Unlock(); return c.Encrypted }
